@@ -17,6 +17,7 @@ import (
 	"strconv"
 	"strings"
 	"sync"
+	"syscall"
 	"time"
 )
 
@@ -171,6 +172,15 @@ func worker(args []string) int {
 	if p == nil {
 		fmt.Fprintln(os.Stderr, "unknown property", *prop)
 		return 2
+	}
+	// a runaway allocation must end this worker, not the machine
+	var lim syscall.Rlimit
+	if syscall.Getrlimit(syscall.RLIMIT_AS, &lim) == nil {
+		lim.Cur = 8 << 30
+		if lim.Max != 0 && lim.Max < lim.Cur {
+			lim.Cur = lim.Max
+		}
+		syscall.Setrlimit(syscall.RLIMIT_AS, &lim)
 	}
 	capturePristine()
 	loadKnown(*known)
@@ -332,7 +342,8 @@ func coordinator(args []string) int {
 				}
 			}
 			if err != nil {
-				errs[w] = fmt.Sprintf("worker %d: %v\n%s", w, err, tail(nonBegin(se.String()), 4000))
+				nb := nonBegin(se.String())
+				errs[w] = fmt.Sprintf("worker %d: %v\n%s\n...\n%s", w, err, clip(nb, 1500), tail(nb, 2500))
 				return
 			}
 			lines := strings.Split(strings.TrimSpace(so.String()), "\n")
